@@ -174,7 +174,7 @@ def sweep(kind="valid"):
             old_handler = signal.signal(signal.SIGALRM, _alarm)
         except ValueError:  # not in the main thread
             watchdog = False
-    for qn, f, req, opt in fns:
+    for qn, f, req, opt in (fns if watchdog else []):  # without a watchdog (not the main thread) no junk is fed: a call might not return
         for pname in req:
             jk = KIND_OF.get(pname)
             # the reflection generators do not terminate on an impossible cell or a NaN limit (unchanged library; outside every property):
@@ -197,12 +197,18 @@ def sweep(kind="valid"):
                     except _Late:
                         break
                     except Exception:  # noqa: BLE001
-                        pass
-                    finally:
-                        if watchdog:
+                        try:
                             signal.setitimer(signal.ITIMER_REAL, 0)
+                        except _Late:
+                            pass
+                    finally:
+                        try:
+                            signal.setitimer(signal.ITIMER_REAL, 0)
+                        except _Late:
+                            pass
                     n += 1
     if watchdog:
+        signal.setitimer(signal.ITIMER_REAL, 0)
         signal.signal(signal.SIGALRM, old_handler)
     try:
         import xfab.sg as sg
